@@ -348,6 +348,11 @@ class AstToDjangoQVisitor(visitor.NodeVisitor):
         kwargs = {}
         for arg in node.args:
             if isinstance(arg, ast.NamedParam):
+                if arg.name.name in kwargs:
+                    # The same parameter twice: `substring(index=1, index=0)`
+                    raise ex.ArgumentTypeException(func_name)
+                if typing.infer_type(arg.param) is ast.List:
+                    raise ex.UnsupportedFunctionException(func_name + "<List>")
                 kwargs[arg.name.name] = arg.param
             elif typing.infer_type(arg) is ast.List:
                 # None of the functions below can handle a collection:
